@@ -440,7 +440,8 @@ def _large_cases(draw, tier):
     case = draw(_hypergraphs(order, tier, max_size=order))
     n = len(case["labels"])
     bigger = [k for k in range(order + 1, 7) if k <= n]
-    case["large"] = _dedupe_sets(draw(st.lists(_edge(n, bigger), min_size=1, max_size=4))) \
+    k = draw(st.sampled_from([1, 1, 2, 3, 4]))
+    case["large"] = _dedupe_sets(draw(st.lists(_edge(n, bigger), min_size=k, max_size=k))) \
         if bigger else []
     case["ins_seed"] = draw(st.integers(0, 2 ** 20))
     return case
@@ -607,11 +608,11 @@ def _dedge(draw, n, sizes):
 @st.composite
 def _directed_cases(draw, tier):
     order = draw(st.sampled_from([3, 4]))
-    n = max(order, draw(st.sampled_from([3, 4, 4, 5, 5, 6, 7])))
+    n = max(order, draw(st.sampled_from([3, 4, 5, 5, 6, 6, 7])))
     labels = draw(st.lists(st.sampled_from(INT_POOL), min_size=n, max_size=n, unique=True))
     sizes = draw(st.sampled_from(
         [[2, 3], [2, 2, 3, 3, 4], [2, 3, 3, 4, 5, 6], [3, 3, 4, 5]] if order == 3 else
-        [[2, 3, 4], [3, 4], [2, 3, 3, 4, 4, 5, 6], [2, 3, 4, 4, 5]]))
+        [[2, 3, 4], [3, 4, 5], [2, 3, 3, 4, 4, 5, 6], [2, 3, 4, 4, 5]]))
     m = draw(st.integers(1, 12 if tier == "quick" else 16))
     seen, edges = set(), []
     for e in draw(st.lists(_dedge(n, sizes), min_size=m, max_size=m)):
